@@ -67,6 +67,8 @@ def run(ctx: Ctx):
     ctx.guarded(dispatch_agree, ctx)
     res.rule("DECIDING-ENTRY", "svd_flip: in each branch the sign vector is the sign of entries D[i, j] selected by argmax(abs(D), axis=a); the arg-max index is used as an index into axis a, it is paired with an enumeration of the other axis, the signs are applied along the axis they were decided for, and no arithmetic combination of entries (which can vanish for a non-zero vector) is used", floor=2)
     ctx.guarded(deciding_entry, ctx)
+    res.rule("DIV-GUARDED", "in the SVD methods listed in SVD_FUNS every division has a denominator that is strictly positive by construction (a value clipped / floored at a positive constant or machine epsilon, its square root, reshapes of it): singular vectors obtained by dividing by computed singular values stay finite for exactly singular input", floor=2)
+    ctx.guarded(div_guarded, ctx)
     res.rule("NONNEG-OPTION", "sign analysis ({non-negative, any} abstract interpretation, the domain of C10): for arbitrary (signed) data and arbitrary singular vectors, make_svd_non_negative returns two entrywise non-negative factors under each of its variants, and svd_interface with the non-negative option returns exactly those", floor=4)
     ctx.guarded(nonneg_option, ctx)
 
@@ -265,6 +267,88 @@ def dispatch_agree(ctx: Ctx):
         raise AnalysisError("DISPATCH-AGREE: no `method == <name>` branch found in svd_interface")
     if sorted(set(seen)) != sorted(names):
         ctx.finding("DISPATCH-AGREE", f, f.node, f"SVD_FUNS lists {sorted(names)} but svd_interface dispatches {sorted(seen)}", construct="SVD_FUNS vs dispatch")
+
+
+# ---------------------------------------------------------------------------------
+# DIV-GUARDED: V = A^T U / S needs S > 0
+# ---------------------------------------------------------------------------------
+def _strictly_positive(e, nonneg_ok=False) -> bool:
+    """True when `e` is > 0 (or, with nonneg_ok, >= 0) entrywise by construction."""
+    cn = _cn
+    if isinstance(e, ast.Constant) and isinstance(e.value, (int, float)) and not isinstance(e.value, bool):
+        return e.value > 0 or (nonneg_ok and e.value >= 0)
+    if isinstance(e, ast.Call):
+        nm = cn(e)
+        kw = {k.arg: k.value for k in e.keywords if k.arg}
+        if nm in ("eps", "finfo"):
+            return True
+        if nm == "clip":
+            lo = e.args[1] if len(e.args) > 1 else kw.get("a_min")
+            if lo is not None and _strictly_positive(lo, nonneg_ok):
+                return True
+            return False
+        if nm in ("maximum", "max") and len(e.args) == 2:
+            return any(_strictly_positive(a, nonneg_ok) for a in e.args)
+        if nm in ("sqrt", "reshape", "transpose", "copy", "tensor", "ravel", "flip", "sort", "diag", "real", "asarray", "to_numpy", "float", "squeeze", "expand_dims") and e.args:
+            return _strictly_positive(e.args[0], nonneg_ok)
+        if nm == "exp":
+            return True
+        if nm in ("abs", "norm", "absolute") and nonneg_ok:
+            return True
+        return False
+    if isinstance(e, ast.Attribute) and e.attr in ("eps", "tiny", "T", "real"):
+        return True if e.attr in ("eps", "tiny") else _strictly_positive(e.value, nonneg_ok)
+    if isinstance(e, ast.Subscript):
+        return _strictly_positive(e.value, nonneg_ok)
+    if isinstance(e, ast.BinOp):
+        if isinstance(e.op, ast.Mult) or isinstance(e.op, ast.Div):
+            return _strictly_positive(e.left, nonneg_ok) and _strictly_positive(e.right, nonneg_ok)
+        if isinstance(e.op, ast.Add):
+            l, r = e.left, e.right
+            return (_strictly_positive(l, nonneg_ok) and _strictly_positive(r, True)) or (_strictly_positive(r, nonneg_ok) and _strictly_positive(l, True))
+        if isinstance(e.op, ast.Pow) and isinstance(e.right, ast.Constant):
+            return _strictly_positive(e.left, nonneg_ok)
+    return False
+
+
+def div_guarded(ctx: Ctx):
+    from .state import _resolve_at
+
+    res = ctx.res
+    mod = ctx.repo.func(S + "svd_interface").module
+    names = None
+    for st in mod.tree.body:
+        if isinstance(st, ast.Assign) and any(is_name(t, "SVD_FUNS") for t in st.targets) and isinstance(st.value, (ast.List, ast.Tuple)):
+            names = [e.value for e in st.value.elts if isinstance(e, ast.Constant)]
+    if not names:
+        raise AnalysisError("DIV-GUARDED: SVD_FUNS vanished")
+    n = 0
+    for nm in names:
+        if not ctx.repo.has_func(S + nm):
+            continue
+        f = ctx.repo.func(S + nm)
+        stmts = [st for st in ast.walk(f.node) if isinstance(st, ast.stmt) and not isinstance(st, (ast.If, ast.For, ast.While, ast.With, ast.Try, ast.FunctionDef))]
+        for st in stmts:
+            for d in ast.walk(st):
+                den = None
+                if isinstance(d, ast.BinOp) and isinstance(d.op, (ast.Div, ast.FloorDiv)):
+                    den = d.right
+                elif isinstance(d, ast.AugAssign) and isinstance(d.op, (ast.Div, ast.FloorDiv)):
+                    den = d.value
+                elif isinstance(d, ast.Call) and _cn(d) in ("divide", "true_divide") and len(d.args) >= 2:
+                    den = d.args[1]
+                if den is None:
+                    continue
+                if isinstance(den, ast.Constant):
+                    continue
+                n += 1
+                full = _resolve_at(den, st, f.node)
+                ok = _strictly_positive(full)
+                res.instance("DIV-GUARDED", f"{f.name}: / {src(den)[:40]}", sample={"denominator": src(full)[:100], "ok": ok})
+                if not ok:
+                    ctx.finding("DIV-GUARDED", f, den, f"{f.name} divides by `{src(den)[:60]}` = `{src(full)[:100]}`, which is not bounded away from zero: for an exactly singular input (a zero eigenvalue / singular value) the quotient is 0/0 or x/0 and the returned singular vectors contain NaN / inf instead of an orthonormal completion", construct=f"{f.name}: / {src(den)[:50]} unguarded")
+    if n == 0:
+        raise AnalysisError("DIV-GUARDED: no division left in the SVD methods; the rule has nothing to decide (re-read symeig_svd)")
 
 
 def nonneg_option(ctx: Ctx):
